@@ -500,7 +500,7 @@ func first(a, _ []byte) []byte { return a }
 //@   ensures[maximal] depth + result >= min(len(key), len(other)) || key[depth+result] != other[depth+result]
 //@   assigns nothing
 //@   loop 1 (idx)
-//@     invariant depth <= idx && forall(i, depth, idx, key[i] == other[i]) && implies(depth <= maxCmp, idx <= maxCmp)
+//@     invariant depth <= idx && forall(i, depth, idx, key[i] == other[i]) && implies(depth <= maxCmp, idx <= maxCmp) && implies(depth > maxCmp, idx == depth)
 //@     decreases maxCmp - idx
 
 //@ spec NodeOK(o) = implies(atype(o) == typeid(node4), Inv4(as(node4, o))) && implies(atype(o) == typeid(node16), Inv16(as(node16, o))) && implies(atype(o) == typeid(node48), Inv48(as(node48, o))) && implies(atype(o) == typeid(node256), Inv256(as(node256, o)))
